@@ -439,6 +439,11 @@ func (w *Writer) dumpObjectIndex() error {
 		}
 		last = k
 	}
+	if maxCommon+1 >= 1<<5 {
+		// The footer has only 5 bits for the abbreviation
+		// length. The object index is optional, so leave it out.
+		return nil
+	}
 	w.Stats.ObjectIDLen = maxCommon + 1
 
 	w.blockWriter = w.newBlockWriter(blockTypeObj)
